@@ -191,8 +191,40 @@ func (db *DB) Backup(dir string) error {
 			}
 		}
 	}
+	// 目标目录可能残留上一次备份的文件: 数据目录中已不存在的数据文件和 hint 文件
+	// (例如 merge 被加载后已被替换或删除的旧文件)必须先删除, 否则打开备份时会重放这些过期记录
+	if err := removeStaleBackupFiles(db.options.DirPath, dir); err != nil {
+		return err
+	}
 	// 将数据目录中的数据文件拷贝到指定目录中
 	return utils.CopyDir(db.options.DirPath, dir, []string{datafile.FileLockSuffix})
+}
+
+// removeStaleBackupFiles 删除备份目录中存在而数据目录中不存在的数据文件和 hint 文件
+func removeStaleBackupFiles(src, dest string) error {
+	entries, err := os.ReadDir(dest)
+	if err != nil {
+		if os.IsNotExist(err) {
+			return nil
+		}
+		return err
+	}
+	for _, entry := range entries {
+		if entry.IsDir() {
+			continue
+		}
+		name := entry.Name()
+		if !strings.HasSuffix(name, string(datafile.DataFileSuffix)) &&
+			!strings.HasSuffix(name, string(datafile.HintFileSuffix)) {
+			continue
+		}
+		if _, err := os.Stat(filepath.Join(src, name)); os.IsNotExist(err) {
+			if err := os.Remove(filepath.Join(dest, name)); err != nil {
+				return err
+			}
+		}
+	}
+	return nil
 }
 
 // Put 新增元素
